@@ -13,6 +13,7 @@ import (
 	"go/types"
 	"path/filepath"
 	"strings"
+	"time"
 
 	"github.com/gocql/gocql"
 	"verifharness/vh"
@@ -119,6 +120,12 @@ func (st *state) exec(op string) (res string) {
 		return "ev=" + ev(st.p.Clear())
 	case "ast":
 		return astFacts()
+	case "seq":
+		return replaySeq(op)
+	case "trace", "cachelen":
+		// an observed history of the real code (session tier): the line IS the implementation's behaviour,
+		// the specification judges it
+		return "accept"
 	}
 	return "bad-op"
 }
@@ -234,8 +241,24 @@ func main() {
 	if tier == "thorough" {
 		mult = 30
 	}
+	// the session tier runs first: if the code under test blocks or crashes, the concrete history is on record
+	// before the single-goroutine tiers (which cannot survive a blocking cache operation) are driven
+	sessionTier(r, out, path, mult)
+	poisoned := false
 	emit := func(op, class string) string {
-		a := st.exec(op)
+		if poisoned {
+			return "blocked"
+		}
+		ch := make(chan string, 1)
+		go func() { ch <- st.exec(op) }()
+		var a string
+		select {
+		case a = <-ch:
+		case <-time.After(15 * time.Second):
+			// a cache operation that never returns when driven from one goroutine (e.g. waits for a flight);
+			// the goroutine stays blocked, so the sequential tiers stop here
+			a, poisoned = "blocked", true
+		}
 		out.Case(op, a, class, true)
 		return a
 	}
